@@ -240,7 +240,7 @@ PROPS = {
                  "instances under the race detector. Oracle: each op's result (bytes up to map order / decoded value / codec or error) equals "
                  "what it returns alone on a fresh instance, no panic, no deadlock, the shared instance still gives the sequential results "
                  "afterwards, no race report. Non-trivial = >=1 preemption at a codec-construction yield point; distinct by case hash "
-                 "(enumerated schedules distinct by construction)."),
+                 "(enumerated schedules distinct by construction). (3) steady state: on a warmed-up shared instance 2-5 free-running goroutines repeat their own operation on their own type 1500 times (150 under the race detector), every result compared with the operation run alone."),
         "jobs": [
             {"run": "^TestC07Schedules$", "shards": 16, "quick_shards": 4, "timeout_quick": 600, "timeout_thorough": 3000},
             {"run": "^TestC07Enumerate$", "shards": 16, "quick_shards": 4, "timeout_quick": 600, "timeout_thorough": 3000},
